@@ -47,7 +47,7 @@ class Target:
 
     def __init__(self, id, func, setup, ensures=(), raises=(), exc_ensures=(), overrides=None, field_types=None,
                  loops=None, unroll=None, classify=None, replay=None, timeout=600, prop=None, note="",
-                 max_paths=20000, bounded=None, oblig_timeout_ms=10000, exit_hook=None, cut_at=None, start_at=None, field_invs=None, feas_timeout_ms=3000, forget_order_facts=False):
+                 max_paths=20000, bounded=None, oblig_timeout_ms=10000, exit_hook=None, cut_at=None, start_at=None, field_invs=None, feas_timeout_ms=3000, forget_order_facts=False, loop_body=None):
         self.id = id
         self.func = func
         self.setup = setup
@@ -72,6 +72,7 @@ class Target:
         self.field_invs = field_invs or {}
         self.feas_timeout_ms = feas_timeout_ms
         self.forget_order_facts = forget_order_facts
+        self.loop_body = loop_body  # (header, contained statement): verify one generic iteration
 
     def replay_refuted(self, I, env, obs, outcome):
         """native replay of the first refuted obligation of this path that has a model"""
@@ -138,7 +139,10 @@ class Target:
                 kwargs = env.get("kwargs", {})
                 try:
                     try:
-                        if self.start_at is not None:
+                        if self.loop_body is not None:
+                            result, fr = I.run_loop_body(live, self.loop_body[0], self.loop_body[1], env["locals"])
+                            env["__locals"] = fr.locals
+                        elif self.start_at is not None:
                             result = I.run_function_from(live, self.start_at, env["locals"], stop_at=self.cut_at)
                         else:
                             result = I.call_function(live, args, kwargs)
